@@ -111,8 +111,23 @@ def make_env(kind: str, templates: dict[str, str], counter: list[int], root: str
             await sched.Gate(("load", template_name))
             return self.get_source(env, template_name, context=context, **kwargs)
 
+    class GatedUptodateLoader(CachingDictLoader):
+        """Caching loader whose freshness check really suspends (like run_in_executor)."""
+
+        def get_source(self, env, template_name, *, context=None, **kwargs):  # noqa: ANN001
+            src = super().get_source(env, template_name, context=context, **kwargs)
+
+            async def uptodate() -> bool:
+                counter[0] += 1
+                await sched.Gate(("uptodate", template_name))
+                return True
+
+            return src._replace(uptodate=uptodate)
+
     if kind == "dict":
         loader: Any = DictLoader(templates)
+    elif kind == "gated-uptodate":
+        loader = GatedUptodateLoader(templates)
     elif kind == "gated":
         loader = GatedDictLoader(templates)
     elif kind == "caching":
@@ -133,7 +148,7 @@ def make_env(kind: str, templates: dict[str, str], counter: list[int], root: str
     return Environment(loader=loader, **(env_kwargs or {}))
 
 
-DICT_KINDS = ["dict", "gated", "caching", "caching-ns", "gated-caching"]
+DICT_KINDS = ["dict", "gated", "caching", "caching-ns", "gated-caching", "gated-uptodate"]
 FS_KINDS = ["fs", "caching-fs", "choice"]
 
 
@@ -199,6 +214,18 @@ FIXTURES: list[tuple[str, dict[str, str], dict[str, Any]]] = [
     ("{{ a.b.c | default: d.e }}{% if a.b.c == d.e or a.x %}t{% endif %}{% case a.b.c %}{% when d.e %}w{% else %}e{% endcase %}"
      "{{ a.b.c if d.e else a.x || append: d.e }}{{ ys | map: 'k' | join: ',' }}{{ ys | where: 'k', a.b.c | size }}",
      {}, {"a": {"b": {"c": 5}, "x": None}, "d": {"e": 5}, "ys": [{"k": 5}, {"k": 6}]}),
+    ("{% for i in xs.items %}[{{ i.v }}{% render 'p/brk', v: i.v %}]{% endfor %} done",
+     {"p/brk": "{% if v > 1 %}{% break %}{% endif %}{{ v }}"}, {"xs": {"items": [{"v": 1}, {"v": 2}, {"v": 3}]}}),
+    ("{% for i in xs.items %}[{{ i.v }}{% render 'p/cnt', v: i.v %}]{% endfor %} done",
+     {"p/cnt": "{% continue %}x"}, {"xs": {"items": [{"v": 1}, {"v": 2}]}}),
+    ("{% for i in xs.items %}[{% include 'p/ibrk' %}]{% endfor %}{% render 'p/cnt' %}",
+     {"p/ibrk": "{{ i.v }}{% if i.v == 2 %}{% break %}{% endif %}", "p/cnt": "{% continue %}x"},
+     {"xs": {"items": [{"v": 1}, {"v": 2}, {"v": 3}]}}),
+    ("{% for i in xs.items %}{% render 'p/nest' for xs.items as j %}{% endfor %}",
+     {"p/nest": "{{ j.v }}{% render 'p/brk', v: j.v %}", "p/brk": "{% if v > 1 %}{% break %}{% endif %}"},
+     {"xs": {"items": [{"v": 1}, {"v": 2}]}}),
+    ("{% macro m x %}{% if x > 1 %}{% break %}{% endif %}{{ x }}{% endmacro %}{% for i in xs.items %}{% call m i.v %}{% endfor %}",
+     {}, {"xs": {"items": [{"v": 1}, {"v": 2}]}}),
     ("{% capture c %}{{ a.b }}{% endcapture %}{{ c }}{% assign z = a.b | append: a.c %}{{ z }}{% with q: a.c %}{{ q }}{% endwith %}"
      "{% cycle a.b, a.c %}{% cycle a.b, a.c %}{{ 'x${a.b}y' }}{% for i in (a.lo..a.hi) %}{{ i }}{% endfor %}",
      {}, {"a": {"b": "B", "c": "C", "lo": 1, "hi": 3}}),
@@ -404,6 +431,59 @@ def _short(o: tuple) -> str:
     return s if len(s) < 300 else s[:300] + "…"
 
 
+def load_render_jobs(w: "Work", name: str, templates: dict[str, str], datas: list[dict[str, Any]], kind: str) -> None:
+    """k concurrent `get_template_async(name, globals=g_i)` + `render_async()` on ONE
+    shared environment / caching loader (warm and cold cache): every caller must get
+    its own globals; each result must equal the solo sync result."""
+    ctx = w.ctx
+    cnt = [0]
+
+    def solo(g):  # noqa: ANN001, ANN202
+        env = make_env(kind, templates, [0])
+        return outcome(lambda: env.get_template(name, globals=copy.deepcopy(g)).render())
+
+    expected = [solo(g) for g in datas]
+    for warm in (False, True):
+        def build():  # noqa: ANN202
+            env = make_env(kind, templates, cnt)
+            if warm:
+                sched.drive(env.get_template_async(name, globals={"warm": 1}))
+
+            async def job(g):  # noqa: ANN001, ANN202
+                t = await env.get_template_async(name, globals=lazy(copy.deepcopy(g), cnt))
+                return await t.render_async()
+
+            return [(lambda g=g: job(g)) for g in datas]
+
+        lengths = [sched.count_awaits(f) for f in build()]
+        if sum(lengths) == len(datas):
+            ctx.count("schedule_sets_without_awaits")
+            continue
+        alls = sched.all_schedules(lengths, 1500)
+        todo = list(alls) if alls is not None else []
+        if alls is None:
+            for _ in range(150):
+                pool = [i for i, n in enumerate(lengths) for _ in range(n)]
+                w.rng.shuffle(pool)
+                todo.append(pool)
+        ctx.count("load_render_sets")
+        for sch in todo:
+            outs, taken = sched.run_schedule(build(), sched.follow(sch))
+            got = [_o2outcome(o) for o in outs]
+            ctx.ev()
+            ctx.count("schedules_explored")
+            ctx.count("load_render_schedules")
+            ctx.nt(name, repr(datas), kind, warm, tuple(taken))
+            if got != expected:
+                who = next(i for i in range(len(datas)) if got[i] != expected[i])
+                ctx.violation(
+                    f"schedule-dependence:load+render:{_diffkind(expected[who], got[who])}:{kind}:{'warm' if warm else 'cold'}-cache",
+                    f"caller {who}: solo-sync={_short(expected[who])} interleaved={_short(got[who])} schedule={taken}",
+                    {"op": "load_render", "name": name, "templates": templates, "datas": datas, "kind": kind},
+                )
+                return
+
+
 # ------------------------------------------------------------------ framework hooks
 
 
@@ -419,11 +499,12 @@ def shards(tier: str, seed: int) -> list[dict[str, Any]]:
 def floors(tier: str) -> dict[str, int]:
     k = 1 if tier == "quick" else 15
     return {"sync_async_pairs": 1000 * k, "schedules_explored": 2000 * k, "schedule_sets_exhaustive": 50 * k,
-            "get_template_pairs": 200 * k, "analyze_pairs": 100 * k, "set:loader_kinds": 8, "error_pairs": 50 * k}
+            "get_template_pairs": 200 * k, "analyze_pairs": 100 * k, "set:loader_kinds": 9, "error_pairs": 50 * k,
+            "load_render_schedules": 300 * k}
 
 
 def gen_case(rng: random.Random) -> tuple[str, dict[str, str], dict[str, Any], Gen]:
-    g = Gen(rng, Profile(partial_prefix="snippets/", partial_suffix=".html"))
+    g = Gen(rng, Profile(partial_prefix="snippets/", partial_suffix=".html", partial_interrupts=True))
     prog = g.program()
     em = E.emit(prog, E.Layout(random.Random(rng.random()), p_marker=0.1, alt_forms=True))
     return em.source, em.partials, g.data(), g
@@ -475,6 +556,11 @@ def run_shard(spec: dict[str, Any], ctx: Ctx) -> None:
                 kind = rng.choice(["gated", "gated-caching", "dict", "caching"])
                 w.schedules(src, tpls, datas, kind, origin)
                 done += 1
+                if done % 3 == 0:
+                    # concurrent loads of one cached template with different globals
+                    gl = [{"who": {"name": n}, "n": {"v": i}} for i, n in enumerate(["alice", "bob", "carol"][: rng.choice([2, 3])])]
+                    lt = {"page": "Hello {{ who.name }} {{ n.v }}{% include 'part' %}", "part": "[{{ who.name }}]"}
+                    load_render_jobs(w, "page", lt, gl, rng.choice(["gated-uptodate", "gated-caching", "caching"]))
             ctx.sample({"kind": "schedule-set", "source": src, "templates": tpls, "datas": datas, "loader": kind})
     finally:
         w.close()
@@ -504,6 +590,8 @@ def replay(wit: dict[str, Any], ctx: Ctx) -> None:
             w.template_ops(wit["templates"], wit["data"], wit["kind"])
         elif op == "schedule":
             w.schedules(wit["source"], wit["templates"], wit["datas"], wit["kind"], "replay")
+        elif op == "load_render":
+            load_render_jobs(w, wit["name"], wit["templates"], wit["datas"], wit["kind"])
         for v in ctx.violations.values():
             print("replay C03:", v["key"], v["what"])
         if not ctx.violations:
